@@ -23,6 +23,7 @@ Norm(cfg, i) == [raises |-> "no", wild |-> FALSE, doc |-> i.doc,
 Devs == {"numpydoc_no_types_unparsable",   \* wild : numpydoc with emit_types=False, or an untyped parameter, emits no `name : type` line; the parser raises / returns garbage
          "gn_return_only_mangled",         \* wild (return entry): Google/NumPy docstring with a return but no parameters: the return type is mis-sliced
          "code_default_unparsable",        \* wild : a code-quoted default carried in the prose is not recovered (raises ValueError or is split)
+         "str_default_with_dot_truncated", \* wild : a string default containing a full stop is cut at it ("~/data/x.txt" -> "~/data/x", ".txt" lands in the description)
          "none_default_as_str",            \* exact: a None default comes back as the string '(None)'
          "empty_str_default_lost",         \* exact: an empty-string default is dropped and 'Defaults to' stays in the description
          "gn_return_default_forced"}       \* exact: Google/NumPy give the return entry a zero/None default once any parameter has one
@@ -54,6 +55,7 @@ AsBuilt(en, cfg, i) ==
                 /\ (~cfg.et \/ \E k \in 1..Len(i.params) : i.params[k].typ = "absent")
       retOnly == "gn_return_only_mangled" \in en /\ cfg.style \in {"google", "numpydoc"} /\ i.ret # NoRet /\ i.params = <<>>
       wildCode == "code_default_unparsable" \in en /\ cfg.edd /\ \E p \in ents : p.def = "code"
+      wildDot == "str_default_with_dot_truncated" \in en /\ cfg.edd /\ \E p \in ents : p.def = "str_dot"
       forced == "gn_return_default_forced" \in en /\ cfg.style \in {"google", "numpydoc"} /\ i.ret # NoRet
                 /\ \E k \in 1..Len(i.params) : ParsedDefault(cfg, i.params[k])
       ret0 == IF i.ret = NoRet THEN Gone ELSE AsBuiltP(en, cfg, i.ret)
@@ -62,9 +64,10 @@ AsBuilt(en, cfg, i) ==
       fired == UNION {FiredP(en, cfg, p) : p \in ents}
                \cup (IF wildNp THEN {"numpydoc_no_types_unparsable"} ELSE {})
                \cup (IF wildCode THEN {"code_default_unparsable"} ELSE {})
+               \cup (IF wildDot THEN {"str_default_with_dot_truncated"} ELSE {})
                \cup (IF forced THEN {"gn_return_default_forced"} ELSE {})
                \cup (IF retOnly THEN {"gn_return_only_mangled"} ELSE {})
-  IN [out |-> [raises |-> "no", wild |-> wildNp \/ wildCode, doc |-> i.doc,
+  IN [out |-> [raises |-> "no", wild |-> wildNp \/ wildCode \/ wildDot, doc |-> i.doc,
                params |-> [k \in 1..Len(i.params) |->
                              AsBuiltPk(en, cfg, i.params[k], \E j \in 1..(k - 1) : ParsedDefault(cfg, i.params[j]))],
                ret |-> ret1],
